@@ -905,6 +905,8 @@ SA_Small == {SA("add", {"Deleted"}, FALSE, FALSE), SA("add", {"Seen"}, FALSE, FA
              SA("set", {"Flagged"}, FALSE, TRUE), SA("set", {}, FALSE, FALSE)}
 SA_Cross == {SA("add", {"Deleted"}, FALSE, FALSE), SA("set", {"Seen"}, FALSE, FALSE), SA("set", {"Deleted", "Flagged"}, FALSE, FALSE),
              SA("rem", {"Seen"}, FALSE, FALSE), SA("add", {"Flagged"}, TRUE, FALSE)}
+SA_CrossDel == {SA("add", {"Deleted"}, FALSE, FALSE), SA("add", {"Seen"}, FALSE, FALSE), SA("add", {"Flagged"}, FALSE, FALSE), SA("rem", {"Seen"}, FALSE, FALSE),
+                SA("set", {"Flagged"}, FALSE, FALSE)}
 SA_Obs == {SA("add", {"Seen"}, FALSE, FALSE), SA("add", {"Flagged"}, FALSE, FALSE), SA("add", {"Deleted"}, FALSE, FALSE),
            SA("rem", {"Seen"}, FALSE, FALSE)}
 CF_None == {{}}
@@ -931,6 +933,16 @@ ScriptThreeOnA == ScriptTwoOnA \o <<
 ScriptCross == <<
   Sc("Select", "s1", <<"A">>), Sc("Append", "s1", <<"A", "m1", 1>>), Sc("Append", "s1", <<"A", "m2", 2>>),
   Sc("Copy", "s1", <<<<1>>, "B", <<1>>>>), Sc("Select", "s2", <<"B">>) >>
+\* prefix: as ScriptCross, and s1 has marked m1 \Deleted in A (the flag is per mailbox: B does not show it)
+ScriptCrossDel == ScriptCross \o << Sc("Store", "s1", <<<<1>>, "add", <<"Deleted">>, FALSE, FALSE>>) >>
+\* prefix: as ScriptCrossDel, and s2 has set \Seen on its copy in B; the update is in s1's responder queue
+ScriptCrossDelTold == ScriptCrossDel \o << Sc("Store", "s2", <<<<1>>, "add", <<"Seen">>, FALSE, FALSE>>),
+                                          Sc("Deliver", "s1", <<"Flags", TRUE>>) >>
+\* prefix: both sessions know m1 and m2 in A; the connector has taken m1 out of A and put it back, s2 has been handed both
+\* updates and has not flushed: its responder queue holds the removal and the re-arrival
+ScriptReAddTold == ScriptTwoOnA \o <<
+  Sc("ConnSetBoxes", None, <<"m1", <<>>>>), Sc("Deliver", "s2", <<"Expunge", TRUE>>),
+  Sc("ConnSetBoxes", None, <<"m1", <<"A">>>>), Sc("Deliver", "s2", <<"Exists", TRUE>>) >>
 \* F14: s2 sets \Seen (queued to s1); s1 removes \Seen before applying it; the queued "add" lands afterwards
 ScriptF14 == <<
   Sc("Select", "s1", <<"A">>), Sc("Append", "s1", <<"A", "m1", 1>>), Sc("Select", "s2", <<"A">>),
